@@ -11,11 +11,12 @@ from ..ref import spake2 as RS, lifecycle
 from . import common as C
 
 LEVEL = "model_checking"
-RULE = ("alphabet (12 events on the current instance): start; start while the entropy function raises; finish(valid); finish(own side); "
-        "finish(unknown side); finish(reflected); finish(undecodable); finish(identity); finish(empty); serialize; restore-and-continue "
+RULE = ("alphabet (14 events on the current instance): start; start while the entropy function raises; finish(valid); finish(own side); "
+        "finish(unknown side); finish(reflected); finish(undecodable); finish(identity); finish(empty); finish(over-long); finish(truncated); "
+        "serialize; restore-and-continue "
         "(current := from_serialized(serialize())); restore under another class. Stateful BFS to fixpoint over canonical (instance "
         "__dict__, entropy position, automaton state, scalars seen) - every history of any length - per (instance, class, scalar); "
-        "stateless replay-from-scratch of ALL 12^k histories (k=4 quick on three classes + k=5 on one, k=6 thorough) cross-checked against "
+        "stateless replay-from-scratch of ALL 14^k histories (k=4 quick on three classes + k=5 on one; k=5 / 6 thorough) cross-checked against "
         "the BFS state set. oracle: every observed (operation, outcome class) is a labelled edge of the TLC graph from the current "
         "automaton state; the xy_scalar reported by serialize() never changes along a history (restorations included). states = product "
         "states; transitions = events executed on the real code; traces_validated = complete histories replayed against the model. "
@@ -25,7 +26,7 @@ ASSUMPTIONS = ["models/Lifecycle.tla is the statement of C07 (TLC checks its inv
                "BFS successors are computed on copy.copy snapshots of the instance; the stateless enumeration uses no copies"]
 EXHAUSTIVE = True
 EVENTS = ["start", "start_raise", "fin_valid", "fin_own_side", "fin_unknown_side", "fin_reflected", "fin_undecodable", "fin_identity",
-          "fin_empty", "serialize", "restore", "restore_wrong"]
+          "fin_empty", "fin_overlong", "fin_truncated", "serialize", "restore", "restore_wrong"]
 _GRAPH = None
 
 
@@ -92,7 +93,8 @@ class World:
         menu = dict(C.inbound_menu(self.inst, side, self.w, xo, own=own))
         self.msgs = {"fin_valid": menu["valid"], "fin_own_side": menu["own-side"], "fin_unknown_side": menu["unknown-side"],
                      "fin_reflected": menu["reflected"], "fin_undecodable": menu["undecodable"],
-                     "fin_identity": C.PEER[side].encode() + R.enc(R.identity), "fin_empty": b""}
+                     "fin_identity": C.PEER[side].encode() + R.enc(R.identity), "fin_empty": b"",
+                     "fin_overlong": menu["over-long"], "fin_truncated": menu["truncated"]}
         self.refclass = {}
         for ev, d in self.msgs.items():
             r = RS.finish(rp, side, self.pw, self.w, self.ids, xo, d)
